@@ -156,23 +156,36 @@ func runC05(c *sim.Ctx) *sim.Violation {
 			declared = 1 + n + int(rl)
 		}
 		var o Outcome
-		measure := func() uint64 {
-			rr := link.NewReader(c.Muted(), stream[start:], link.Mode{})
-			c05ArmReader(rr)
+		// The measured window contains the library call ONLY (no accessor calls, no
+		// rendering by the harness): steps and heap bytes are the library's.
+		rawRead := func(rd *link.Reader) (mq.Packet, error, *sim.PanicInfo, uint64) {
+			var p mq.Packet
+			var err error
+			c05ArmReader(rd)
 			a0 := heapAllocs()
-			oo := ReadOne(rr)
+			pi := sim.Guard(func() { p, err = mq.ReadPacket(rd) })
 			a1 := heapAllocs()
-			c05Disarm()
-			_ = oo
-			return a1 - a0
+			return p, err, pi, a1 - a0
 		}
-		c05ArmReader(r)
-		a0 := heapAllocs()
-		o = ReadOne(r)
-		alloc := heapAllocs() - a0
+		measure := func() uint64 {
+			_, _, _, a := rawRead(link.NewReader(c.Muted(), stream[start:], link.Mode{}))
+			c05Disarm()
+			return a
+		}
+		p, rerr, rpi, alloc := rawRead(r)
 		used := c05Steps
 		budget := c05Budget
 		c05Disarm()
+		switch {
+		case rpi != nil:
+			o = Outcome{Kind: "panic", Pan: rpi}
+		case rerr == nil && !isNilPacket(p):
+			o = Outcome{Kind: "packet", Type: drv.TypeOf(p), P: p}
+		case rerr != nil && isNilPacket(p):
+			o = Outcome{Kind: "error", Err: rerr}
+		default:
+			o = Outcome{Kind: "shape", Err: rerr, P: p}
+		}
 		if used > c05Max {
 			c05Max = used
 		}
@@ -185,7 +198,6 @@ func runC05(c *sim.Ctx) *sim.Violation {
 			c.Count("skipped.panic-is-C04s-business")
 			return nil
 		}
-		// Observe allocates too (harness side) - it ran inside ReadOne; bound generously
 		limit := uint64(256*declared + 64<<10)
 		if alloc > limit {
 			// re-measure three times on a fresh reader; all must exceed
